@@ -6,6 +6,7 @@ import (
 	"fmt"
 	"go/constant"
 	"go/token"
+	"go/types"
 	"sort"
 	"strings"
 
@@ -298,7 +299,23 @@ func checkC18(c *Check) {
 			c.Cond(len(outs) == 1 && outs[0] == t.want, "3/counter", fmt.Sprintf("%s.CheckSyscall:inside=%v,allow=%v", fh, t.inside, t.allow), p.Pos(cs.Pos()), "→ "+t.want, fmt.Sprintf("yields %v, want %s", outs, t.want))
 		}
 	}
-	c.Expect("3/counter", 16)
+	// the count-down is decremented on every call, also after it reached zero: it must not wrap around within any
+	// history a run can produce. Decided on the element type: at least 32 bits (2^31 traced calls take longer than
+	// any time limit the runners accept), or a decrement that stops at zero.
+	if pk := p.Pkg("runner/ptrace/filehandler"); pk != nil {
+		if tn, ok := pk.Types.Scope().Lookup("SyscallCounter").(*types.TypeName); ok {
+			width, et := int64(0), "?"
+			if m, ok := tn.Type().Underlying().(*types.Map); ok {
+				et = m.Elem().String()
+				if b, ok := m.Elem().Underlying().(*types.Basic); ok && b.Info()&types.IsInteger != 0 {
+					width = p.sizes().Sizeof(m.Elem()) * 8
+				}
+			}
+			c.Cond(width >= 32, "3/counter", fh+".SyscallCounter:width", p.Pos(tn.Pos()), fmt.Sprintf("remaining count is %d bits wide", width),
+				fmt.Sprintf("the remaining count has type %s (%d bits) and is decremented on every call: after 2^%d refused calls it wraps to a positive value and the call is allowed again", et, width, width-1))
+		}
+	}
+	c.Expect("3/counter", 17)
 
 	// ---------- 4: matcher skeleton ----------
 	checkMatcherSkeleton(c)
@@ -356,6 +373,65 @@ func checkC18(c *Check) {
 	checkNoSharedState(c, "5/no-shared-state", func(path string) bool {
 		return strings.HasSuffix(path, "/runner/ptrace/filehandler") || strings.HasSuffix(path, "/runner/ptrace")
 	}, 1)
+
+	// ---------- 7: the unresolvable name stays unresolvable ----------
+	// Every class asks the matcher about NAME and about the symlink-free form of NAME. The matcher refuses "" (rule
+	// 4), but filepath.EvalSymlinks("") is (".", nil) — Clean of the empty path — and "." is matched as a child of
+	// the root by a '/*' entry. So the function that computes the symlink-free form must map "" to "".
+	checkUnresolvableName(c, "7/unresolvable-stays-unresolvable")
+
+	// ---------- 8: a budgeted call reaches its counter ----------
+	checkConfigTables(c, "8/counted-not-allowed", "counted")
+
+	// ---------- 9: every request gets its own policy objects ----------
+	checkFreshPolicyObjects(c, "9/fresh-policy-objects")
+}
+
+func checkUnresolvableName(c *Check, rule string) {
+	p := c.P
+	// the function(s) of the package that call filepath.EvalSymlinks and whose result reaches the matcher
+	n := 0
+	for _, fn := range p.PkgFuncs("runner/ptrace/filehandler") {
+		var ev *ssa.Call
+		for _, ci := range callInstrs(fn) {
+			if nm, _ := calleeOf(ci); nm == "path/filepath.EvalSymlinks" {
+				ev, _ = ci.(*ssa.Call)
+			}
+		}
+		if ev == nil || len(fn.Params) == 0 || fn.Signature.Results().Len() == 0 || fn.Signature.Results().At(0).Type().String() != "string" {
+			continue
+		}
+		n++
+		var outs []string
+		good := true
+		w := &walker{fn: fn, Inline: -1}
+		w.Seed = func(w *walker, st *wstate, v ssa.Value) *absVal {
+			if pr, ok := v.(*ssa.Parameter); ok && pr.Type().String() == "string" {
+				return avC(constant.MakeString(""))
+			}
+			if ex, ok := v.(*ssa.Extract); ok && ex.Tuple == ssa.Value(ev) {
+				// documented behaviour of EvalSymlinks on the empty path
+				if ex.Index == 0 {
+					return avC(constant.MakeString("."))
+				}
+				return &absVal{k: avNil}
+			}
+			return nil
+		}
+		w.OnReturn = func(w *walker, st *wstate, ret *ssa.Return, rs []*absVal) {
+			outs = append(outs, rs[0].String())
+			if rs[0].k != avConst || rs[0].c.Kind() != constant.String || constant.StringVal(rs[0].c) != "" {
+				good = false
+			}
+		}
+		w.Run()
+		c.Cond(good && len(outs) > 0 && !w.Truncated, rule, shortName(fn)+":empty-name", p.Pos(fn.Pos()), "the empty name is mapped to the empty name",
+			fmt.Sprintf("%s maps the empty (unresolvable) name to %v: every class then asks the matcher about \".\", which a '/*' entry covers — an unresolvable name is admitted (or soft-banned instead of killed)", fn.Name(), uniqStrings(outs)))
+	}
+	if n == 0 {
+		c.Undecided(rule, "runner/ptrace/filehandler:realPath", "-", "no symlink-resolving helper found")
+	}
+	c.Expect(rule, 1)
 }
 
 func checkMatcherSkeleton(c *Check) {
@@ -532,4 +608,112 @@ func uniqStrings(xs []string) []string {
 		}
 	}
 	return out
+}
+
+// freshValue: v is created on this call path — a make, a new/composite value whose parts are fresh, a constant, or
+// the result of a module function all of whose results are fresh. Anything read from a parameter, a package
+// variable or another object's field is not.
+func freshValue(v ssa.Value, depth int, seen map[ssa.Value]bool) bool {
+	if v == nil || depth > 8 {
+		return false
+	}
+	if seen[v] {
+		return true
+	}
+	seen[v] = true
+	switch x := v.(type) {
+	case *ssa.Const, *ssa.MakeMap, *ssa.MakeSlice, *ssa.MakeChan:
+		return true
+	case *ssa.Alloc:
+		// every store into the cell or one of its fields stores a fresh value
+		ok := true
+		var uses func(addr ssa.Value)
+		uses = func(addr ssa.Value) {
+			if addr.Referrers() == nil {
+				return
+			}
+			for _, r := range *addr.Referrers() {
+				switch y := r.(type) {
+				case *ssa.Store:
+					if y.Addr == addr && !freshValue(y.Val, depth+1, seen) {
+						ok = false
+					}
+				case *ssa.FieldAddr:
+					uses(y)
+				case *ssa.IndexAddr:
+					uses(y)
+				}
+			}
+		}
+		uses(x)
+		return ok
+	case *ssa.UnOp:
+		if a, isA := x.X.(*ssa.Alloc); isA && x.Op == token.MUL {
+			return freshValue(a, depth+1, seen)
+		}
+		return false
+	case *ssa.Slice:
+		return freshValue(x.X, depth+1, seen)
+	case *ssa.ChangeType:
+		return freshValue(x.X, depth+1, seen)
+	case *ssa.Convert:
+		return freshValue(x.X, depth+1, seen)
+	case *ssa.MakeInterface:
+		return freshValue(x.X, depth+1, seen)
+	case *ssa.Phi:
+		for _, e := range x.Edges {
+			if !freshValue(e, depth+1, seen) {
+				return false
+			}
+		}
+		return true
+	case *ssa.Call:
+		_, callee := calleeOf(x)
+		if callee == nil || !inModule(callee) || len(callee.Blocks) == 0 {
+			return false
+		}
+		any := false
+		for _, b := range callee.Blocks {
+			if ret, ok := b.Instrs[len(b.Instrs)-1].(*ssa.Return); ok && len(ret.Results) > 0 {
+				any = true
+				if !freshValue(retVal(ret, 0), depth+1, seen) {
+					return false
+				}
+			}
+		}
+		return any
+	}
+	return false
+}
+
+// checkFreshPolicyObjects: the sets and the counter table of the handler GetConf returns are created for this call:
+// what one request adds (work directory, extra paths, profile grants, budgets) cannot show up in another's handler.
+func checkFreshPolicyObjects(c *Check, rule string) {
+	p := c.P
+	gc := p.Func("cmd/runprog/config", "GetConf")
+	if gc == nil {
+		c.Undecided(rule, "cmd/runprog/config.GetConf", "-", "function not found")
+		return
+	}
+	n := 0
+	for _, b := range gc.Blocks {
+		for _, in := range b.Instrs {
+			st, ok := in.(*ssa.Store)
+			if !ok {
+				continue
+			}
+			fa, ok := st.Addr.(*ssa.FieldAddr)
+			if !ok || !strings.HasSuffix(derefType(fa.X.Type()).String(), "filehandler.Handler") {
+				continue
+			}
+			f := fieldName(fa.X.Type(), fa.Field)
+			n++
+			c.Cond(freshValue(st.Val, 0, map[ssa.Value]bool{}), rule, "cmd/runprog/config.GetConf:Handler."+f, p.Pos(st.Pos()), "created for this call",
+				"the handler's "+f+" ("+describe(st.Val)+") is not created afresh for this call (it is, or shares maps with, an object that outlives the call): paths and budgets granted to one request are in force for every later one")
+		}
+	}
+	if n == 0 {
+		c.Undecided(rule, "cmd/runprog/config.GetConf:Handler", p.Pos(gc.Pos()), "the handler literal was not found")
+	}
+	c.Expect(rule, 2)
 }
